@@ -551,6 +551,28 @@ def run(ctx):
 _CONVERSIONS = ("np.array", "np.asarray", "np.asanyarray", "np.atleast_1d", "numpy.array", "numpy.asarray")
 
 
+_FLOAT_NAMES = ("float", "np.float64", "np.double", "np.float_", "np.longdouble", "'float64'", "'float'", "'f8'", "'d'", "np.float128")
+_KEEPING = ("int", "np.int64", "np.int32", "np.int16", "np.int8", "np.intp", "np.int_", "'int64'", "'int32'", "'i4'", "'i8'", "None")
+
+
+def _dtype_unknown(conv):
+    """the conversion names an element type this rule cannot classify (neither floating double nor caller's / integer / narrow)"""
+    for c in ast.walk(conv):
+        if isinstance(c, ast.Call):
+            dts = [k.value for k in c.keywords if k.arg == "dtype"]
+            if isinstance(c.func, ast.Attribute) and c.func.attr == "astype" and c.args:
+                dts.append(c.args[0])
+            for dt in dts:
+                t = norm_text(dt)
+                if t in _FLOAT_NAMES or t in _KEEPING or t.endswith(".dtype"):
+                    continue
+                if (call_name(dt) or "") in ("np.result_type", "np.promote_types", "np.find_common_type") and \
+                        any(norm_text(a) in _FLOAT_NAMES for a in dt.args):
+                    return "promoted"
+                return "unknown"
+    return None
+
+
 def _converted_component(fi, v):
     """np.array(<component parameter>, ...) / <component parameter>.astype(...) (possibly chained)"""
     while isinstance(v, ast.Call):
@@ -666,10 +688,13 @@ def _r10(ctx):
                 done.add(side.id)
                 if len(conv) != len(defs):
                     raise AnalysisError("%s: component %r is defined in more than one way before its arithmetic" % (fi.qualname, side.id))
-                if all(_float_normalised(prog, fi, d.value) for d in conv):
+                kinds = [_dtype_unknown(d.value) for d in conv]
+                if "unknown" in kinds:
+                    raise AnalysisError("%s: element type of %r not classified" % (fi.qualname, norm_text(conv[kinds.index("unknown")])[:80]))
+                if all(k_ == "promoted" or _float_normalised(prog, fi, d.value) for k_, d in zip(kinds, conv)):
                     ctx.holds(fi, conv[0], "%s: %s converted to a floating element type before %r" % (fi.qualname, side.id, norm_text(n)[:50]))
                 else:
-                    bad = next(d for d in conv if not _float_normalised(prog, fi, d.value))
+                    bad = next(d for k_, d in zip(kinds, conv) if k_ != "promoted" and not _float_normalised(prog, fi, d.value))
                     ctx.violated(fi, bad, "%s: %r keeps the caller's element type, and %r is then computed in it: integer "
                                  "components (e.g. int32 stresses in Pa) wrap around, the result is not the equivalent stress and "
                                  "does not scale with the tensor" % (fi.qualname, norm_text(bad), norm_text(n)[:60]))
@@ -1223,6 +1248,13 @@ def variants():
         return edit
     out.append(witness("mises converts all components in one generator without an element type", EP, _mises_unpacked("np.array(c)"), "R-C17-10"))
     out.append(twin("mises converts all components in one generator with dtype=float", EP, _mises_unpacked("np.asarray(c, dtype=float)")))
+
+    def mises_result_type(tree):
+        cs = _conv_calls(tree, "mises")
+        for c in cs:
+            c.keywords = [ast.keyword(arg="dtype", value=parse_expr("np.result_type(%s, np.float64)" % ast.unparse(c.args[0])))]
+        return len(cs) == 6
+    out.append(twin("mises promotes each component with np.result_type(x, np.float64)", EP, mises_result_type))
 
     def mises_astype(tree):
         f = find_func(tree, "mises")
